@@ -178,19 +178,11 @@ impl<SystemType : System> SysCache<SystemType>
             {
                 match system.rename(&cache_path, &target_path)
                 {
-                    Err(error) =>
-                    {
-                        /*  Another rule's thread can take the same cache file between the
-                            check above and the rename.  Then the file is simply not there. */
-                        if system.is_file(&cache_path)
-                        {
-                            RestoreResult::SystemError(error)
-                        }
-                        else
-                        {
-                            RestoreResult::NotThere
-                        }
-                    },
+                    /*  Another rule's thread can take the same cache file between the
+                        check above and the rename.  Then the file is simply not there. */
+                    Err(SystemError::NotFound) | Err(SystemError::RenameFromNonExistent)
+                        => RestoreResult::NotThere,
+                    Err(error) => RestoreResult::SystemError(error),
                     Ok(()) => RestoreResult::Done
                 }
             }
